@@ -1,7 +1,7 @@
 // ---- expression semantics of the Cedar language (C02), written from the language reference ----
 // sem() gives, for an expression under an evaluation environment (request variables, entity store, slot bindings),
 // the value kind or error class the language prescribes; Res::Unk where evaluation meets an unknown (partial evaluation)
-// or a construct this spec does not pin down (extension calls, record literals).  Source locations are not semantic.
+// or a construct this spec does not pin down (the result of an extension call).  Source locations are not semantic.
 #[verifier::external_body] pub fn vx_in_advice(e: EvaluationError, arg2: &Value) -> (r: EvaluationError) ensures r.same_class(e) { unimplemented!() }
 pub trait VxClonedExt<T, E> { fn vx_cloned(self) -> std::result::Result<T, E>; }
 impl<'a, E> VxClonedExt<PartialValue, E> for std::result::Result<&'a PartialValue, E> {
@@ -105,8 +105,11 @@ pub open spec fn sem_has_attr(ev: &Evaluator<'_>, k: ValueKind, attr: SmolStr) -
     }
 }
 pub enum ListRes { Vals(Seq<ValueKind>), Stop(Res) }
+/// the attribute initialisers of a record literal in key order (the order the evaluator visits them)
+pub open spec fn rec_items(m: BTreeMap<SmolStr, Expr>) -> Seq<Expr> { Seq::new(m.key_order().len(), |i: int| m@[m.key_order()[i]]) }
+pub open spec fn rec_pairs(keys: Seq<SmolStr>, ks: Seq<ValueKind>) -> Seq<(SmolStr, ValueKind)> { Seq::new(ks.len(), |i: int| (keys[i], ks[i])) }
 pub open spec fn node_items(e: Expr) -> Seq<Expr> {
-    match e.expr_kind { ExprKind::Set(items) => items@, ExprKind::ExtensionFunctionApp { args, .. } => args@, _ => Seq::empty() }
+    match e.expr_kind { ExprKind::Set(items) => items@, ExprKind::ExtensionFunctionApp { args, .. } => args@, ExprKind::Record(m) => rec_items(*m), _ => Seq::empty() }
 }
 /// the language semantics of an expression: left to right, short-circuiting &&, ||, if
 pub open spec fn sem(ev: &Evaluator<'_>, slots: SlotEnv, e: Expr) -> Res
@@ -153,8 +156,11 @@ pub open spec fn sem(ev: &Evaluator<'_>, slots: SlotEnv, e: Expr) -> Res
             ListRes::Stop(r) => r,
             ListRes::Vals(ks) => Res::Val(mk_set(ks)),
         },
-        // record literals: not pinned down by this spec (evaluation order over the key-sorted map)
-        ExprKind::Record(_) => Res::Unk,
+        // record literals: the initialisers are evaluated in key order; the first error or unknown is the result
+        ExprKind::Record(m) => match sem_items(ev, slots, e, m.key_order().len()) {
+            ListRes::Stop(r) => r,
+            ListRes::Vals(ks) => Res::Val(mk_record(rec_pairs(m.key_order(), ks))),
+        },
         ExprKind::Error { .. } => Res::ErrOther,
     }
 }
@@ -167,6 +173,9 @@ pub open spec fn sem_items(ev: &Evaluator<'_>, slots: SlotEnv, e: Expr, n: nat) 
             ListRes::Vals(ks) => match e.expr_kind {
                 ExprKind::Set(items) => match sem(ev, slots, items@[n - 1]) { Res::Val(k) => ListRes::Vals(ks.push(k)), r => ListRes::Stop(r) },
                 ExprKind::ExtensionFunctionApp { args, .. } => match sem(ev, slots, args@[n - 1]) { Res::Val(k) => ListRes::Vals(ks.push(k)), r => ListRes::Stop(r) },
+                ExprKind::Record(m) => if m@.contains_key(m.key_order()[n - 1]) {
+                        match sem(ev, slots, m@[m.key_order()[n - 1]]) { Res::Val(k) => ListRes::Vals(ks.push(k)), r => ListRes::Stop(r) }
+                    } else { ListRes::Vals(ks) },
                 _ => ListRes::Vals(ks),
             },
             stop => stop,
